@@ -467,7 +467,7 @@ A_NETS = ('10.1.0.0/24', '10.1.0.0/25', '10.1.0.128/25')
 B_NETS = ('10.2.0.0/24', '10.2.0.0/25')
 PROTO_NUM = {'any': 0, 'tcp': 6, 'udp': 17}
 MODE_NUM = {'transport': 0, 'tunnel': 1}
-E_PORTS = (0, 22, 23, 24, 1000, 65535)
+E_PORTS = (0, 21, 22, 23, 24, 25, 1000, 65535)
 A_SIDE = R.universe([(4, int(ipaddress.IPv4Address(a))) for a in
                      ('10.0.255.255', '10.1.0.0', '10.1.0.1', '10.1.0.127', '10.1.0.128', '10.1.0.129', '10.1.0.255',
                       '10.1.1.0', S.IP_A)], E_PORTS, PKT_PROTOS) + R.universe([(6, 1), (6, 1 << 127)], E_PORTS, PKT_PROTOS)
@@ -834,6 +834,8 @@ def tamper_ops():
         'all:port-low-range': ('widen-if-port', lambda l: [s._replace(plo=0, phi=999) for s in l]),
         'all:port-high-range': ('widen-if-port', lambda l: [s._replace(plo=24, phi=65535) for s in l]),
         'all:port-subrange': ('widen-if-port', lambda l: [s._replace(plo=22, phi=24) for s in l]),
+        'all:port-block-unaligned': ('widen-if-port', lambda l: [s._replace(plo=21, phi=24) for s in l]),      # 4 ports, start not a multiple of 4
+        'all:port-block-aligned': ('widen-if-port', lambda l: [s._replace(plo=20, phi=23) for s in l]),
         'all:proto-sctp': ('neutral', lambda l: [s._replace(proto=132) for s in l]),
         'all:proto-gre': ('neutral', lambda l: [s._replace(proto=47) for s in l]),
         'port-any': ('widen-if-port', first(lambda s: s._replace(plo=0, phi=65535))),
@@ -867,7 +869,8 @@ def tamper_cases():
     # an initiator that is not pyikev2 proposes port ranges inside the responder's any-port policy
     for exch in ('auth', 'new'):
         for mode in ('transport', 'tunnel'):
-            for op in ('identity', 'all:port-low-range', 'all:port-high-range', 'all:port-subrange'):
+            for op in ('identity', 'all:port-low-range', 'all:port-high-range', 'all:port-subrange', 'all:port-block-unaligned',
+                       'all:port-block-aligned'):
                 out.append((exch, mode, 'req', op, 'tsi', False))
     return out
 
